@@ -148,5 +148,12 @@ def run(tier, seed, model_ok, spec_ok, replay=None):
 def matches_known(known, case):
     m = known.get("match", {})
     if "flag" in m:
-        return m["flag"] in case.get("flags", []) and any(case.get("impl", "").startswith("exc:'" + e) for e in m.get("outcomes", []))
+        if m["flag"] not in case.get("flags", []):
+            return False
+        if any(case.get("impl", "").startswith("exc:'" + e) for e in m.get("outcomes", [])):
+            return True
+        # the same defect when the non-type argument is a string that happens to be a type NAME ('path', 'int'): it is
+        # accepted and read as the type, so the parsed condition differs from the DSL-built one
+        return bool(m.get("or_read_as_type")) and case.get("impl", "").startswith("ok:") and \
+            case.get("what", "").startswith("from_spec(spec) is not equal")
     return False
